@@ -11,8 +11,8 @@ import json, os, re
 import vcommon as V
 
 META = dict(
-    text="Lean 4: an executable model of the code generator (Model/Gen.lean, one function per Generate*) and of the stack VM (Model/VM.lean: every instruction, Run, CallFunction, CallUserFunction+recover, CallResolved/EvalCallExpression nested runs, scopes/closures/lazy arguments by reference in explicit tables, loops, self tail calls) is compared with an independent big-step reference evaluator (Spec/RefEval.lean: frames, closures by environment pointer, no stack/jumps/TCO, effect trace). PROVED, for programs of every size and nesting (Props/C02.lean, lemmas in Proofs/Sim*.lean): (layout) GenerateBegin pops exactly between statements; in cond with any number of arms every brn lands on the next arm and every jump behind the form; in and/or every br lands behind the form; the for-loop layout and its break/continue offsets; (execution) one turn of the Run loop and push/pop/dup/jump/goto/branch as state transformers; the SEGMENT LEMMA for the fragment Fv = literals, symbol reference, def, set, non-empty begin, cond with any number of arms, and/or of any arity, non-empty newScope, letseq, and let with pairwise distinct names, nested arbitrarily: the code compile produces for such an expression, embedded at any offset of any compiled function, run from a VM state related to the reference state (same bindings in every scope/frame, linear stack = static chain, same heap and trace), reaches its own end within code.length instructions with exactly one more value on the data stack - the value Ref.eval returns - and related states again, or ends in a script error with the same trace exactly when Ref.eval reports an error; the same SEGMENT LEMMA for the fragment Fc = Fv with binder names that are not builtin names, plus array literals [e1 ... en], plus calls (h a1 ... an) of first-order builtins (+ - * mod < > <= >= == != not cons first rest second list array len append concat aget aset hash hget hset, and the host function trace) with operands in Fc - a call is one VM instruction whose execution compiles every operand at run time into a fresh function object and runs it in a nested Run (EvalCallExpression/nested), then runs the builtin under CallUserFunction; callee first, operands once, left to right, errors propagate with the trace; and from them CompileCorrect RESTRICTED TO Fv AND TO Fc PROGRAMS (compile_correct_on_Fv, compile_correct_on_Fc: whenever the reference evaluator reports value/error+trace for the program text, VM.runText = LoadExpressions+Run on the generator model reports the same), with explicit fuel bounds on both sides for the effect-free sub-fragment F0c (compile_correct_F0c: VM fuel 3*size+3). NOT PROVED: CompileCorrect for the remaining programs (def CompileCorrectOutsideProved: user functions fn/defn/closures/varargs/recursion, calls whose head is not a first-order builtin name incl. map/apply/force, for/break/continue, self tail calls, lazy parameters, a let with a repeated name); compile_correct_partial proves that CompileCorrect follows from that remainder. The remainder - and the tie of both models to the Go code - is held by the 3-way correspondence of channel `eval` (implementation vs VM model on class/value/trace/four stack depths; implementation vs reference evaluator on class/value/trace) over grammar- and type-directed programs, a malformed stream and an exhaustive small scope. A unit test fixes a few hundred programs; the theorems cover every arm count and nesting of the fragment, the correspondence every generated shape.",
-    note="Trusted: Lean kernel; axioms propext/Classical.choice/Quot.sound. The models are hand-written and tied to zygo/generator.go, vm.go, environment.go, scopes.go, closing.go, stack.go, expressions.go only by the `eval` correspondence (differential testing): the theorems are about Model/Gen.lean + Model/VM.lean vs Spec/RefEval.lean, not about the Go code. The builtin semantics on values (Model/Prim.lean) are shared by model and reference. Partial: the execution half of the simulation is proved for the fragments Fv and Fc only (builtin calls and array literals yes; no user functions, no loops, no closures); an empty (begin)/(newScope) is outside the fragment (known findings K2/K3); a parallel let with a repeated name is outside the fragment and is a case where implementation/VM model (last name bound first: (let [a 1 a 2] a) = 1) and reference evaluator (= 2) differ - the random generators do not emit it. Infix surface syntax, floats, chars, hashes and `/` are outside the modelled core; break/continue inside call operands are outside the random generators' domain (known finding). The `compile` listing channel is not implemented (jump arithmetic is tied to the Go code through `eval` only).",
+    text="Lean 4: an executable model of the code generator (Model/Gen.lean, one function per Generate*) and of the stack VM (Model/VM.lean: every instruction, Run, CallFunction, CallUserFunction+recover, CallResolved/EvalCallExpression nested runs, scopes/closures/lazy arguments by reference in explicit tables, loops, self tail calls) is compared with an independent big-step reference evaluator (Spec/RefEval.lean: frames, closures by environment pointer, no stack/jumps/TCO, effect trace). PROVED, for programs of every size and nesting (Props/C02.lean, lemmas in Proofs/Sim*.lean): (layout) GenerateBegin pops exactly between statements; in cond with any number of arms every brn lands on the next arm and every jump behind the form; in and/or every br lands behind the form; the for-loop layout and its break/continue offsets; (execution) one turn of the Run loop and push/pop/dup/jump/goto/branch as state transformers; the SEGMENT LEMMA for the fragment Fv = literals, symbol reference, def, set, begin (also empty), cond with any number of arms, and/or of any arity, non-empty newScope, letseq, and let with pairwise distinct names, nested arbitrarily: the code compile produces for such an expression, embedded at any offset of any compiled function, run from a VM state related to the reference state (same bindings in every scope/frame, linear stack = static chain, same heap and trace), reaches its own end within code.length instructions with exactly one more value on the data stack - the value Ref.eval returns - and related states again, or ends in a script error with the same trace exactly when Ref.eval reports an error; the same SEGMENT LEMMA for the fragment Fc = Fv with binder names that are not builtin names, plus array literals [e1 ... en], plus for loops (labelled or not) whose init/test/increment/body are in Fc (so without break/continue; nested arbitrarily), plus calls (h a1 ... an) of first-order builtins (+ - * mod < > <= >= == != not cons first rest second list array len append concat aget aset hash hget hset, and the host function trace) with operands in Fc - a call is one VM instruction whose execution compiles every operand at run time into a fresh function object and runs it in a nested Run (EvalCallExpression/nested), then runs the builtin under CallUserFunction; callee first, operands once, left to right, errors propagate with the trace; and from them CompileCorrect RESTRICTED TO Fv AND TO Fc PROGRAMS (compile_correct_on_Fv, compile_correct_on_Fc: whenever the reference evaluator reports value/error+trace for the program text, VM.runText = LoadExpressions+Run on the generator model reports the same), with explicit fuel bounds on both sides for the effect-free sub-fragment F0c (compile_correct_F0c: VM fuel 3*size+3). NOT PROVED: CompileCorrect for the remaining programs (def CompileCorrectOutsideProved: user functions fn/defn/closures/varargs/recursion, calls whose head is not a first-order builtin name incl. map/apply/force, break/continue (and loops using them), self tail calls, lazy parameters, empty newScope); compile_correct_partial proves that CompileCorrect follows from that remainder. The remainder - and the tie of both models to the Go code - is held by the 3-way correspondence of channel `eval` (implementation vs VM model on class/value/trace/four stack depths; implementation vs reference evaluator on class/value/trace) over grammar- and type-directed programs, a malformed stream and an exhaustive small scope. A unit test fixes a few hundred programs; the theorems cover every arm count and nesting of the fragment, the correspondence every generated shape.",
+    note="Trusted: Lean kernel; axioms propext/Classical.choice/Quot.sound. The models are hand-written and tied to zygo/generator.go, vm.go, environment.go, scopes.go, closing.go, stack.go, expressions.go only by the `eval` correspondence (differential testing): the theorems are about Model/Gen.lean + Model/VM.lean vs Spec/RefEval.lean, not about the Go code. The builtin semantics on values (Model/Prim.lean) are shared by model and reference. Partial: the execution half of the simulation is proved for the fragments Fv and Fc only (builtin calls, array literals and for loops without break/continue yes; no user functions, no closures, no break/continue); an empty (newScope) is outside the fragment (the reference allocates a frame, the VM pushes nil without a scope: the index-by-index relation does not cover it); a parallel let with a repeated name is outside the fragment and, by Ref.wf, outside the property's domain (implementation/VM model bind the last name first: (let [a 1 a 2] a) = 1, a first-name-first reading gives 2). Infix surface syntax, floats, chars, hashes and `/` are outside the modelled core; break/continue inside call operands are outside the random generators' domain (known finding). The `compile` listing channel is not implemented (jump arithmetic is tied to the Go code through `eval` only).",
     technique="Lean 4 theorems over an executable model of generator+VM and a reference evaluator; 3-way model/spec/implementation correspondence through the line protocol",
     design_ref="DESIGN.md §7 C02, §13",
 )
@@ -92,12 +92,12 @@ def run(rep):
                               "segment_lemma_F0c + F0c_total + compile_correct_F0c (pure control fragment: literals, begin, cond, and, or; explicit fuel 3*size+3); "
                               "segment_lemma_Fv + compile_correct_on_Fv (Fv = F0c + symbol reference + def + set + newScope + letseq + let with distinct names: values, errors, traces, effects on every scope, "
                               "simulation relation Sim.Rel between VM scope table / linear stack and reference frame table / static chain); "
-                              "segment_lemma_Fc + compile_correct_on_Fc (Fc = Fv with non-builtin binder names + array literals + calls of first-order builtins incl. trace, operands in nested runs: "
-                              "relation Sim.RelC with the parent chain of helper functions, frame conditions, existential fuel floor); "
+                              "segment_lemma_Fc + compile_correct_on_Fc (Fc = Fv with non-builtin binder names + array literals + for loops without break/continue + calls of first-order builtins incl. trace, operands in nested runs: "
+                              "relation Sim.RelC with the parent chain of helper functions, frame conditions, no value is a stack mark (Sim.Clean, prim_clean), existential fuel floor and instruction count); "
                               "compile_correct_partial: CompileCorrect on Fv and on Fc, and CompileCorrect follows from CompileCorrectOutsideProved")
     rep.coverage["not_proved"] = ("CompileCorrectOutsideProved (def ... : Prop in Props/C02.lean): CompileCorrect for programs that are neither in Fv nor in Fc - "
                                   "user functions (fn/defn/closures/varargs/recursion), calls whose head is not a first-order builtin name (map/apply/force, computed heads), "
-                                  "let with a repeated name, for/break/continue, self tail calls, lazy parameters, empty begin/newScope. "
+                                  "break/continue (and loops that use them), self tail calls, lazy parameters, empty newScope. "
                                   "Held by the 3-way `eval` correspondence of this run, not by a theorem. The tie of Model/Gen.lean and Model/VM.lean to the Go code is by that correspondence only.")
     rep.assumptions += [
         "Model/Gen.lean, Model/VM.lean are hand-written; tied to the Go code by the `eval` correspondence only (class, value, trace, four stack depths per text)",
@@ -105,6 +105,7 @@ def run(rep):
         "the reference evaluator enters the new frame before evaluating let initialisers, treats an array in head position as an error after evaluating the operands, and yields a non-function head applied to no operands as that value (documented language behaviour)",
         "domain of the random generators: s-expression syntax, ints/bools/strings/lists/arrays/closures; no infix, floats, chars, hashes, `/`; no break/continue inside call operands (known finding)",
         "programs whose reference evaluation runs out of fuel are judged against the model only",
+        "a parallel `let` with a repeated name, e.g. (let [a 1 a 2] a), is outside the property's domain (Ref.wf demands pairwise distinct names; the usual Lisp reading: a syntax error): the implementation binds the last name first and yields 1, a first-name-first reading yields 2; letseq may repeat names",
     ]
     if not (prep["ok_drv"] and prep["ok_harness"]):
         rep.violation("machinery-failure", {"what": "driver or harness did not build against the current tree",
